@@ -114,6 +114,12 @@ func (s *pkScriptInfo) ScriptClass() txscript.ScriptClass {
 func ParsePkScript(pkScript []byte, chainParams *config.Params) (PkScript, error) {
 
 	scriptClass, pops := txscript.GetScriptInfo(pkScript)
+	switch scriptClass {
+	case txscript.WitnessV0ScriptHashTy, txscript.StakingScriptHashTy, txscript.BindingScriptHashTy:
+	default:
+		// not a pay template (unparsable, non-standard, multisig, null data)
+		return nil, ErrUnsupportedScript
+	}
 	height, scriptHash, err := txscript.GetParsedOpcode(pops, scriptClass)
 	if err != nil {
 		return nil, err
